@@ -37,13 +37,18 @@ fn domain() -> Domain {
 }
 
 pub fn legal_ident(s: &str) -> bool {
-    let mut it = s.chars();
-    match it.next() {
-        Some(c) if c == '_' || c.is_alphabetic() => {}
-        _ => return false,
+    // Rust's rule is XID_Start XID_Continue* (combining marks and modifier letters included: `J̌a`, `i̇stanbul`, `ʼNa` are
+    // identifiers), which `char::is_alphanumeric` does not capture; syn's own lexer decides, plus the keyword list
+    // (syn refuses keywords as well; the list also holds the reserved and the weak ones that cannot name a struct)
+    if s.is_empty() || s == "_" || KEYWORDS.contains(&s) || s.chars().any(|c| c.is_whitespace()) {
+        return false;
     }
-    // syn has already accepted it as an identifier; this is a second, cruder opinion
-    it.all(|c| c == '_' || c.is_alphanumeric()) && !KEYWORDS.contains(&s)
+    syn::parse_str::<syn::Ident>(s).is_ok()
+}
+
+/// may this character stand inside an identifier? (letters, digits, `_`, and the marks XID_Continue admits)
+pub fn ident_continue(c: char) -> bool {
+    c == '_' || c.is_alphanumeric() || syn::parse_str::<syn::Ident>(&format!("a{}", c)).is_ok()
 }
 
 /// the C04 oracle on the parsed output (also used by C16)
@@ -280,6 +285,59 @@ impl Property for C04 {
         if let Some((e, docs)) = fail {
             return Err((Failure::new(format!("small-scope exhaustive search (flat element): {}", e)).with_detail(json!({"documents": docs})), json!({"small_scope_documents": docs})));
         }
+        // literal names that equal a synthesised struct name: `c` under `p` and under `q` is qualified (PC, QC), a reserved
+        // name gets a suffix (String2) - and an element that is literally called like that stands before, between or behind
+        {
+            use crate::model::{Item, Node};
+            let el = |name: &str, kids: Vec<Node>| Node { name: name.to_string(), attrs: vec!["k".to_string()], items: kids.into_iter().map(Item::Child).collect() };
+            let mut synth: Vec<Node> = Vec::new();
+            for (p_, q_, c_) in [("a", "z", "b"), ("total", "tax", "price"), ("foo", "r", "bar"), ("a", "a2", "a")] {
+                let pascal = |s: &str| -> String { s.split(['_', '-']).map(|w| w.chars().take(1).flat_map(|c| c.to_uppercase()).chain(w.chars().skip(1)).collect::<String>()).collect() };
+                let literals = [
+                    format!("{}{}", p_, c_),
+                    format!("{}{}", pascal(p_), pascal(c_)),
+                    format!("{}_{}", p_, c_),
+                    format!("{}-{}", p_, c_),
+                    format!("{}{}", pascal(q_), pascal(c_)),
+                    format!("{}{}2", pascal(p_), pascal(c_)),
+                    format!("r{}{}", pascal(p_), pascal(c_)),
+                ];
+                for lit in &literals {
+                    for pos in 0..3 {
+                        for nested in [false, true] {
+                            let leaf = el(c_, vec![]);
+                            let inner = if nested { el(c_, vec![el("x", vec![])]) } else { leaf.clone() };
+                            let mut kids = vec![el(p_, vec![inner.clone()]), el(q_, vec![leaf.clone()])];
+                            kids.insert(pos, el(lit, vec![]));
+                            synth.push(el("r", kids));
+                        }
+                    }
+                }
+            }
+            for (res, lit) in [("string", "string2"), ("vec", "Vec2"), ("option", "option2"), ("self", "Self2"), ("serialize", "Serialize2")] {
+                for order in [[0usize, 1], [1, 0]] {
+                    let both = [el(res, vec![]), el(lit, vec![])];
+                    synth.push(el("r", order.iter().map(|i| both[*i].clone()).collect()));
+                    // two elements of the reserved name at different positions, and the literal
+                    synth.push(el("r", vec![both[order[0]].clone(), both[order[1]].clone(), el("m", vec![el(res, vec![])])]));
+                }
+            }
+            let (evals, nts, fail) = super::smallscope::run_tuples_over(synth, 1, |_docs, bytes| {
+                let root = crate::sut::parse_seq(bytes).map_err(|(i, e)| format!("document #{} rejected: {}", i + 1, e))?;
+                for by_name in [false, true] {
+                    let src = root.to_serde_struct(&crate::sut::opts_quick(by_name, ""));
+                    let defs = read_both(&src).map_err(|e| format!("output is not a sequence of well-formed struct items: {}\n{}", e, src))?;
+                    well_formed(&defs).map_err(|e| format!("{}\n{}", e, src))?;
+                }
+                Ok(true)
+            });
+            st.evaluations += evals;
+            st.nontrivial_enumerated += nts;
+            st.add("literal_names_equal_to_synthesised_struct_names", evals);
+            if let Some((e, docs)) = fail {
+                return Err((Failure::new(format!("literal name equal to a synthesised struct name: {}", e)).with_detail(json!({"documents": docs})), json!({"small_scope_documents": docs})));
+            }
+        }
         Ok(())
     }
     fn replay_custom(&self, payload: &Value) -> Result<(), Failure> {
@@ -299,7 +357,7 @@ impl Property for C04 {
         true
     }
     fn rule(&self) -> String {
-        "small-scope exhaustive: every document with root r and up to 4 (thorough: 5) elements over the child names a, b, ab, A, type (attribute k, optional text), both presets; every flat element `foo` with up to 4 (thorough: 5) distinct children, up to 2 attributes and optional text over 12 names whose identifiers collide with each other and with the suffixes the identifier map hands out (foo, Foo, FOO, foo_1, foo_2, foo-2, foo_attr, foo_attr_1, text, text_content, type, foo_type), both sort orders; sampled: tape-decoded document sequences over adversarial name pools (keywords in any case, case and separator variants, prefixed and multi-colon names, concatenation sets, String/Option/Vec/Serialize..., identifier-map traps such as text/text_content/foo_1/type_attr, non-ASCII, digits; names may clash after prefix removal; one document in 25 a chain up to depth 60; half of the cases written with the full surface variation: comments whose text contains `/*`, `*/`, `//`, quotes, braces and line breaks, PIs, prolog, DOCTYPE, CDATA with bare ampersands, entity references), in half of the cases the tree is rendered after every document and only the last rendering is judged; both presets and both sort orders. The output is parsed with syn (and the strict line reader, cross-checked) and checked for: only pub structs with pub named fields, unique legal non-keyword struct names not shadowing String/Option/Vec, unique legal non-keyword field names per struct, field types String or a struct of the same output, every non-first struct used by exactly one field and the first by none. Non-trivial = the pool holds names that collide after normalisation, a concatenation clash, or a keyword/std/trap name, and the output has three or more structs; distinct by hash of documents and options.".into()
+        "small-scope exhaustive: every document with root r and up to 4 (thorough: 5) elements over the child names a, b, ab, A, type (attribute k, optional text), both presets; every flat element `foo` with up to 4 (thorough: 5) distinct children, up to 2 attributes and optional text over 12 names whose identifiers collide with each other and with the suffixes the identifier map hands out (foo, Foo, FOO, foo_1, foo_2, foo-2, foo_attr, foo_attr_1, text, text_content, type, foo_type), both sort orders; a fixed family of documents in which an element is literally called like a synthesised struct name (`ab`/`AB`/`a_b` beside a/b and z/b, `string2` beside `string`), before, between and behind; sampled: tape-decoded document sequences over adversarial name pools (keywords in any case, case and separator variants, prefixed and multi-colon names, concatenation sets, String/Option/Vec/Serialize..., identifier-map traps such as text/text_content/foo_1/type_attr, non-ASCII, digits; names may clash after prefix removal; one document in 25 a chain up to depth 60; half of the cases written with the full surface variation: comments whose text contains `/*`, `*/`, `//`, quotes, braces and line breaks, PIs, prolog, DOCTYPE, CDATA with bare ampersands, entity references), in half of the cases the tree is rendered after every document and only the last rendering is judged; both presets and both sort orders. The output is parsed with syn (and the strict line reader, cross-checked) and checked for: only pub structs with pub named fields, unique legal non-keyword struct names not shadowing String/Option/Vec, unique legal non-keyword field names per struct, field types String or a struct of the same output, every non-first struct used by exactly one field and the first by none. Non-trivial = the pool holds names that collide after normalisation, a concatenation clash, or a keyword/std/trap name, and the output has three or more structs; distinct by hash of documents and options.".into()
     }
     fn assumptions(&self) -> Vec<String> {
         vec![
